@@ -16,7 +16,13 @@ STMT_KINDS = ["restart", "error", "esi", "synthetic", "synthetic.base64"] + ["re
 TYPES = ["INTEGER", "FLOAT", "STRING", "BOOL", "RTIME", "TIME", "IP", "BACKEND", "ACL", "header"]
 ASSIGN_OPS = ["=", "+=", "-=", "*=", "/=", "%=", "|=", "&=", "^=", "<<=", ">>=", "rol=", "ror=", "&&=", "||="]
 CMP_OPS = ["==", "!=", "<", ">", "<=", ">=", "~", "!~"]
-FORMS = ["lit", "local", "predef"]
+FORMS = ["lit", "local", "predef", "plit", "plocal", "ppredef", "ifexp", "call"]
+BASE_FORM = {"plit": "lit", "plocal": "local", "ppredef": "predef"}
+COERCE_CTX = ["arg", "ret", "par"]
+VALUE_TYPES = ["INTEGER", "FLOAT", "STRING", "BOOL", "RTIME", "TIME", "IP", "BACKEND", "ACL"]
+DEPTHS = [1, 2, 3]
+PAIR_MASKS = [(1 << i) | (1 << j) for i in range(9) for j in range(i + 1, 9)]
+TRIPLE_MASKS = [m for m in range(1, 512) if bin(m).count("1") == 3]
 LIT_TYPES = {"INTEGER", "FLOAT", "STRING", "BOOL", "RTIME", "BACKEND", "ACL"}
 PREDEF_TYPES = {"INTEGER", "FLOAT", "STRING", "BOOL", "RTIME", "TIME", "IP", "BACKEND", "header"}
 VAR_OPS = ["get", "set", "unset"]
@@ -31,11 +37,15 @@ def form_exists(ty, form):
         return ty in LIT_TYPES
     if form == "predef":
         return ty in PREDEF_TYPES
+    if form in BASE_FORM:
+        return ty != "header" and form_exists(ty, BASE_FORM[form])
+    if form == "call":
+        return ty != "header"
     return True
 
 
 def op_positions():
-    """bit positions of an operator row: index = 3 * right type index + form index (absent forms stay 0)"""
+    """bit positions of an operator / coercion row: index = 8 * value type index + form index (absent forms stay 0)"""
     return [(r, f) for r in TYPES for f in FORMS]
 
 
@@ -96,7 +106,7 @@ class Obs:
         self.vars = []    # dict(template, name, op, lint[45], interp[45], ctx[45])
         self.funcs = []   # dict(name, sig, lint[45], interp[45])
         self.stmts = []   # dict(kind, lint[45], interp[45])
-        self.ops = []     # dict(op, lty, lint[30], interp[30], exists[30])
+        self.ops = []     # dict(op, lty, lint[80], interp[80], exists[80])
         self.cells = 0
         self.programs_run = 0
         self.bad = []     # replies that are not verdicts (died / hang / malformed)
@@ -165,13 +175,85 @@ def observe(tier="quick", only=None):
     pos = op_positions()
     for op in ASSIGN_OPS + CMP_OPS:
         for l in TYPES:
-            row = {"op": op, "lty": l, "lint": [None] * 30, "interp": [None] * 30,
+            row = {"op": op, "lty": l, "lint": [None] * len(pos), "interp": [None] * len(pos),
                    "exists": [form_exists(r, f) for r, f in pos]}
             o.ops.append(row)
             for p, (r, f) in enumerate(pos):
                 if form_exists(r, f):
                     reqs.append("cell O,%s,%s,%s,%s" % (op, l, r, f))
                     index.append((row, p, "cell"))
+    # a value of type T in each form where a value of type E is expected: built-in argument, return value, parameter
+    o.coerce = []
+    for cx in COERCE_CTX:
+        for e in VALUE_TYPES:
+            row = {"ctx": cx, "etype": e, "lint": [None] * len(pos), "interp": [None] * len(pos)}
+            o.coerce.append(row)
+            for p, (t, f) in enumerate(pos):
+                if form_exists(t, f):
+                    reqs.append("cell C,%s,%s,%s,%s" % (cx, e, t, f))
+                    index.append((row, p, "cell"))
+    # scopes obtained by call-graph inference: the use in the innermost of 1..3 un-annotated helpers reached from
+    # every pair of lifecycle subroutines.  quick: one representative per accessor class / function scope class;
+    # thorough: every row, and every triple of lifecycle subroutines for the representatives
+    full = tier == "thorough"
+    o.inferred_full = full
+    seen = set()
+    var_reps = []
+    for v in vars_:
+        key = (v["scopes"], v["get"] != "NEVER", v["set"] != "NEVER", v["unset"])
+        if full or key not in seen:
+            var_reps.append(v)
+        seen.add(key)
+    seen = set()
+    func_reps = []
+    for f in funcs:
+        if full or f["scopes"] not in seen:
+            func_reps.append(f)
+        seen.add(f["scopes"])
+    o.inferred = []
+    uses = []
+    for v in var_reps:
+        for n in instantiate(v["name"], http_names):
+            for op in VAR_OPS:
+                uses.append(("IV", n, op))
+    for f in func_reps:
+        uses.append(("IF", f["name"], "0"))
+    for k in STMT_KINDS:
+        uses.append(("IS", k, ""))
+    for kind, name, at in uses:
+        for d in DEPTHS:
+            row = {"kind": kind, "name": name, "at": at, "depth": d, "masks": PAIR_MASKS,
+                   "lint": [None] * 36, "interp": [None] * 36}
+            o.inferred.append(row)
+            for p, m in enumerate(PAIR_MASKS):
+                spec = "%s,%s,%s,%d,%d" % (kind, name, at, d, m) if kind != "IS" else "IS,%s,%d,%d" % (name, d, m)
+                reqs.append("cell " + spec)
+                index.append((row, p, "cell"))
+    # triples (thorough): representatives only
+    o.inferred3 = []
+    if full:
+        seen = set()
+        rep_names = set()
+        for v in vars_:
+            key = (v["scopes"], v["get"] != "NEVER", v["set"] != "NEVER", v["unset"])
+            if key not in seen:
+                rep_names.update(instantiate(v["name"], http_names))
+            seen.add(key)
+        seen = set()
+        for f in funcs:
+            if f["scopes"] not in seen:
+                rep_names.add(f["name"])
+            seen.add(f["scopes"])
+        for kind, name, at in uses:
+            if kind != "IS" and name not in rep_names:
+                continue
+            row = {"kind": kind, "name": name, "at": at, "depth": 2, "masks": TRIPLE_MASKS,
+                   "lint": [None] * len(TRIPLE_MASKS), "interp": [None] * len(TRIPLE_MASKS)}
+            o.inferred3.append(row)
+            for p, m in enumerate(TRIPLE_MASKS):
+                spec = "%s,%s,%s,2,%d" % (kind, name, at, m) if kind != "IS" else "IS,%s,2,%d" % (name, m)
+                reqs.append("cell " + spec)
+                index.append((row, p, "cell"))
     reps = parallel_batch(reqs)
     for req, (row, p, kind), rep in zip(reqs, index, reps):
         f = (rep or "").split()
@@ -273,6 +355,26 @@ def write_obs(o):
     b.append("].\n")
     _write(os.path.join(gen, "ObsStmts.v"), "".join(b))
     b = [HEADER]
+    b.append("(* (context, expected type, linter accepts, simulator executes): bit 8 * value type index + form index *)\n")
+    b.append("Definition obs_coerce : list (string * string * N * N) := [\n")
+    b.append(";\n".join("(%s, %s, %d, %d)" % (cs(r["ctx"]), cs(r["etype"]), lint_bits(r), interp_bits(r)) for r in o.coerce))
+    b.append("].\n")
+    _write(os.path.join(gen, "ObsCoerce.v"), "".join(b))
+    b = [HEADER]
+    b.append("(* scopes by call-graph inference: (kind IV/IF/IS, name, operation or signature, helper chain depth, linter accepts,\n"
+             "   simulator executes); bit m = the chain is called from vcl_<s> for every scope s of the compact mask m *)\n")
+    b.append("Definition obs_inferred_full : bool := %s.\n" % ("true" if o.inferred_full else "false"))
+
+    def mbits(r, key, pred):
+        return sum(1 << m for m, x in zip(r["masks"], r[key]) if pred(x))
+    for nm, rows in (("obs_inferred", o.inferred), ("obs_inferred3", o.inferred3)):
+        b.append("Definition %s : list (string * string * string * N * N * N) := [\n" % nm)
+        b.append(";\n".join("(%s, %s, %s, %d, %d, %d)" % (cs(r["kind"]), cs(r["name"]), cs(r["at"]), r["depth"],
+                                                          mbits(r, "lint", lambda x: x is True), mbits(r, "interp", lambda x: x in RUNS))
+                            for r in rows))
+        b.append("].\n")
+    _write(os.path.join(gen, "ObsInferred.v"), "".join(b))
+    b = [HEADER]
     b.append("(* annotation masks of any width (compact 9-bit masks) on which the linter was observed; bit m of a row = mask m accepted *)\n")
     b.append("Definition obs_wide_masks : list N := [%s].\n" % "; ".join(str(m) for m in o.wide_masks))
     b.append("Definition obs_vars_wide : list (string * string * N) := [\n")
@@ -284,7 +386,7 @@ def write_obs(o):
     b.append("].\n")
     _write(os.path.join(gen, "ObsWide.v"), "".join(b))
     b = [HEADER]
-    b.append("(* (operator, left type, linter accepts, simulator executes): bit 3 * right type index + form index *)\n")
+    b.append("(* (operator, left type, linter accepts, simulator executes): bit 8 * right type index + form index *)\n")
     b.append("Definition obs_ops : list (string * string * N * N) := [\n")
     b.append(";\n".join("(%s, %s, %d, %d)" % (cs(r["op"]), cs(r["lty"]), lint_bits(r), interp_bits(r)) for r in o.ops))
     b.append("].\n")
@@ -331,7 +433,7 @@ def gap_rows():
     with open(src, "w") as f:
         f.write("From Coq Require Import NArith List String.\nFrom Falco Require Import Model.TablesGaps.\nImport ListNotations.\n"
                 "Open Scope N_scope.\nOpen Scope string_scope.\nEval vm_compute in all_gap_rows.\nEval vm_compute in domain_sizes.\n")
-    rc, out = V.sh(["timeout", "300", "coqc", "-R", V.COQ, "Falco", "-o", os.path.join(V.BUILD, "C05PrintGaps.vo"), src], cwd=V.BUILD, timeout=330)
+    rc, out = V.sh(["timeout", "2400", "coqc", "-R", V.COQ, "Falco", "-o", os.path.join(V.BUILD, "C05PrintGaps.vo"), src], cwd=V.BUILD, timeout=2430)
     if rc != 0:
         return None, None, out
     t = re.sub(r"\s+", " ", out)
@@ -358,8 +460,15 @@ def first_cell(row):
     if k.startswith("stmt-"):
         return "S,%s,%d" % (n, MASKS[positions(b, 45)[0]])
     if k.startswith("op-"):
-        r, f = op_positions()[positions(b, 30)[0]]
+        r, f = op_positions()[positions(b, 80)[0]]
         return "O,%s,%s,%s,%s" % (n, a, r, f)
+    if k.startswith("coerce-"):
+        r, f = op_positions()[positions(b, 80)[0]]
+        return "C,%s,%s,%s,%s" % (n, a, r, f)
+    if k.startswith("inferred-"):
+        kind, at, depth = a.split(":")
+        m = positions(b, 512)[0]
+        return "IS,%s,%s,%d" % (n, depth, m) if kind == "IS" else "%s,%s,%s,%s,%d" % (kind, n, at, depth, m)
     return None
 
 
@@ -378,6 +487,11 @@ WHAT = {
     "stmt-model": "statement guard model differs from the real linter",
     "op-model": "operator model (Model/LintOps.v) differs from the real linter",
     "op-interp-model": "simulator decision model (Model/InterpAssign.v) differs from the real simulator",
+    "coerce-model": "coercion model (Model/LintOps.v lint_coerce_model) differs from the real linter",
+    "coerce-interp-model": "coercion model (Model/InterpAssign.v interp_coerce_model) differs from the real simulator",
+    "coerce-interp": "accepted by the linter, fails in the simulator",
+    "inferred-model": "linter verdict under inferred scopes differs from 'every inferred scope allows it'",
+    "inferred-interp": "accepted by the linter under inferred scopes, fails in the simulator from one of the entry subroutines",
     "var-table": "linter/context/predefined.go differs from __generator__/predefined.yml",
     "func-table-ref": "linter/context/builtin.go differs from __generator__/builtin.yml",
     "dyn-ref": "linter/context/dynamic.go differs from __generator__/predefined.yml",
@@ -388,8 +502,16 @@ WHAT = {
 def describe(row):
     k, n, a, b = row["kind"], row["name"], row["at"], row["bits"]
     if k.startswith("op-"):
-        where = ", ".join("%s %s" % op_positions()[p] for p in positions(b, 30))
+        where = ", ".join("%s %s" % op_positions()[p] for p in positions(b, 80))
         return "%s %s %s [%s]: %s" % (a, n, "<value>", where, WHAT.get(k, k))
+    if k.startswith("coerce-"):
+        where = ", ".join("%s %s" % op_positions()[p] for p in positions(b, 80))
+        ctx = {"arg": "built-in argument", "ret": "return value of a functional subroutine", "par": "parameter of a functional subroutine"}[n]
+        return "%s of type %s given [%s]: %s" % (ctx, a, where, WHAT.get(k, k))
+    if k.startswith("inferred-"):
+        ms = positions(b, 512)
+        return "%s (%s) in un-annotated helpers reached from %d sets of lifecycle subroutines (first: %s): %s" % (
+            n, a, len(ms), "+".join(SCOPES[i] for i in range(9) if ms[0] >> i & 1), WHAT.get(k, k))
     if k == "var-type":
         return "%s: linter %s in [%s]: %s" % (n, a, ",".join(SCOPES[p] for p in positions(b, 9)), WHAT[k])
     if "-wide-" in k:
